@@ -40,12 +40,41 @@ import (
 	"google.golang.org/grpc/credentials/insecure"
 )
 
+// vMsg is the payload in both directions. Besides the scalar fields of the repository's
+// test.Request it carries a slice and a map derived from the ID, so that a transport
+// that reuses decode buffers / destination structs between messages (content of an
+// earlier message changes when a later one arrives, or map entries accumulate) is
+// observable. gRPC carries ID and Message only (fixed proto).
+type vMsg struct {
+	ID      int            `json:"id" msgpack:"id"`
+	Message string         `json:"message" msgpack:"message"`
+	Tags    []int          `json:"tags" msgpack:"tags"`
+	Attrs   map[string]int `json:"attrs" msgpack:"attrs"`
+}
+
+func vMk(id int, msg string) vMsg {
+	return vMsg{ID: id, Message: msg, Tags: []int{id, id + 1, id * 2}, Attrs: map[string]int{"k" + strconv.Itoa(id): id}}
+}
+
+// vIntact: the rich fields still are what the sender put there (rich=false: gRPC).
+func vIntact(m vMsg, rich bool) bool {
+	if !rich {
+		return true
+	}
+	if len(m.Tags) != 3 || m.Tags[0] != m.ID || m.Tags[1] != m.ID+1 || m.Tags[2] != m.ID*2 {
+		return false
+	}
+	return len(m.Attrs) == 1 && m.Attrs["k"+strconv.Itoa(m.ID)] == m.ID
+}
+
 type (
-	vRq = test.Request
-	vRs = test.Response
+	vRq = vMsg
+	vRs = vMsg
 	vSS = freighter.ServerStream[vRq, vRs]
 	vCS = freighter.ClientStream[vRq, vRs]
 )
+
+var _ = test.Request{}
 
 // ---------------------------------------------------------------- job / trace formats
 
@@ -217,6 +246,8 @@ type vRes struct {
 }
 
 type vRun struct {
+	hKept  []vMsg
+	cKept  []vMsg
 	job    *vJob
 	hCmd   chan vCmd
 	hDone  chan vRes
@@ -249,11 +280,17 @@ func (r *vRun) handle(_ context.Context, s vSS) error {
 				if req.Message != vPattern('c', req.ID, vSize(r.job.SzC, req.ID)) {
 					return vRes{res: "corrupt", id: req.ID}
 				}
+				r.hKept = append(r.hKept, req)
+				for _, k := range r.hKept { // earlier messages must not change when later ones arrive
+					if !vIntact(k, r.job.Tr != "grpc") {
+						return vRes{res: "corrupt", id: req.ID}
+					}
+				}
 				return vRes{res: "msg", id: req.ID}
 			})
 		case "send":
 			r.hDone <- vGuard(func() vRes {
-				err := s.Send(vRs{ID: cmd.id, Message: vPattern('h', cmd.id, cmd.size)})
+				err := s.Send(vMk(cmd.id, vPattern('h', cmd.id, cmd.size)))
 				c, t := vClass(err)
 				return vRes{res: c, txt: t}
 			})
@@ -278,11 +315,17 @@ func (r *vRun) client(s vCS) {
 				if res.Message != vPattern('h', res.ID, vSize(r.job.SzH, res.ID)) {
 					return vRes{res: "corrupt", id: res.ID}
 				}
+				r.cKept = append(r.cKept, res)
+				for _, k := range r.cKept {
+					if !vIntact(k, r.job.Tr != "grpc") {
+						return vRes{res: "corrupt", id: res.ID}
+					}
+				}
 				return vRes{res: "msg", id: res.ID}
 			})
 		case "send":
 			r.cDone <- vGuard(func() vRes {
-				err := s.Send(vRq{ID: cmd.id, Message: vPattern('c', cmd.id, cmd.size)})
+				err := s.Send(vMk(cmd.id, vPattern('c', cmd.id, cmd.size)))
 				c, t := vClass(err)
 				return vRes{res: c, txt: t}
 			})
